@@ -13,7 +13,7 @@ from pyvc.tree import (NODE as Node, SEQ_NODE as SeqNode, CSSMATCH as M, NSMAP a
                        FLAGS as Flags)
 from spec.vocab_tree import (parent, contents, idx, depth, is_tag, is_doc, is_navstr, is_comment, is_cdata, is_pi, is_decl,
                              is_doctype, text, name, prefix, namespace, is_xml_flag, next_sibling, previous_sibling, same,
-                             ascii_lower, ns_get, html_ns_map, NS_XHTML, NS_XML)
+                             ascii_lower, ns_get, html_ns_map, fake_parent, NS_XHTML, NS_XML)
 from spec.vocab_ir import (sel_is_null, SEL_EMPTY, SEL_ROOT, SEL_DEFAULT, SEL_INDETERMINATE, SEL_SCOPE, SEL_DIR_LTR, SEL_DIR_RTL,
                            SEL_IN_RANGE, SEL_OUT_OF_RANGE, SEL_DEFINED, SEL_PLACEHOLDER_SHOWN, DIR_FLAGS, RANGES)
 
@@ -161,9 +161,63 @@ def sem_placeholder(m: M, el: Node) -> bool:
     return _ref.sem_placeholder(m, el)
 
 
-@abstract
+# ---- An+B (C02): position among the qualifying element siblings, closed form of  exists n >= 0 . a*n + b == pos
+
+def anb(a: int, b: int, var: bool, q: int) -> bool:
+    """a*n + b reaches q for some integer n >= 0 (var), or a == q for the keyword / plain-integer forms (not var)."""
+    if not var:
+        return a == q
+    if a == 0:
+        return b == q
+    return (q - b) % a == 0 and (q - b) // a >= 0
+
+
+def same_type(m: M, el: Node, c: Node) -> bool:
+    """Same element type: same (case-folded) name and same namespace."""
+    return tag_name(m, c) == tag_name(m, el) and tag_ns(m, c) == tag_ns(m, el)
+
+
+def qualifies(m: M, ns: NsMap, ifr: bool, el: Node, n: SelNth, c: Node) -> bool:
+    """Sibling c counts towards el's index under n: it matches `of S` (if given) and, for -of-type, has el's type."""
+    return ((len(n.selectors.selectors) == 0 or sem_list(m, ns, ifr, c, n.selectors)) and
+            (not n.of_type or same_type(m, el, c)))
+
+
+def cnt_from(m: M, ns: NsMap, ifr: bool, el: Node, n: SelNth, sibs: SeqNode, i: int) -> int:
+    """Number of qualifying elements among sibs[i:], up to and including el."""
+    if i < 0 or i >= len(sibs):
+        return 0
+    if qualifies(m, ns, ifr, el, n, sibs[i]):
+        if same(sibs[i], el):
+            return 1
+        return 1 + cnt_from(m, ns, ifr, el, n, sibs, i + 1)
+    return cnt_from(m, ns, ifr, el, n, sibs, i + 1)
+
+
+def nth_parent(m: M, el: Node) -> Node:
+    """The node whose children are el's siblings: its parent, or a stand-in holding only el for a detached element."""
+    p = parent(el)
+    return p if p is not None else fake_parent(el)
+
+
+def nth_sibs(m: M, el: Node, last: bool) -> SeqNode:
+    """The element siblings of el including el, in document order (reversed for the -last- forms); [el] for a detached element."""
+    return kids_spec(m, nth_parent(m, el), None, last, True, False)
+
+
+def nth_one(m: M, ns: NsMap, ifr: bool, el: Node, n: SelNth) -> bool:
+    return ((len(n.selectors.selectors) == 0 or sem_list(m, ns, ifr, el, n.selectors)) and
+            anb(n.a, n.b, n.n, cnt_from(m, ns, ifr, el, n, nth_sibs(m, el, n.last), 0)))
+
+
+def all_nth(m: M, ns: NsMap, ifr: bool, el: Node, nth: SeqSelNth, i: int) -> bool:
+    if i < 0 or i >= len(nth):
+        return True
+    return nth_one(m, ns, ifr, el, nth[i]) and all_nth(m, ns, ifr, el, nth, i + 1)
+
+
 def sem_nth(m: M, ns: NsMap, ifr: bool, el: Node, nth: SeqSelNth) -> bool:
-    return _ref.sem_nth(m, ns, ifr, el, nth, sem_list)
+    return all_nth(m, ns, ifr, el, nth, 0)
 
 
 @abstract
@@ -454,3 +508,10 @@ def unesc(content: str, string: bool) -> str:
     so contracts that mention it are about how callers compose it, not about its value)."""
     from soupsieve import css_parser as _cp
     return _cp.css_unescape(content, string)
+
+
+@abstract
+def kids_spec(m: M, el: Node, start: OptInt, reverse: bool, tags: bool, no_iframe: bool) -> SeqNode:
+    """get_children(): contents of el from `start` (default: the first, or the last when reversed), forwards or backwards,
+    only Tags when asked; nothing for a missing element or (no_iframe) an iframe."""
+    return _ref.kids_spec(m, el, start, reverse, tags, no_iframe)
